@@ -408,9 +408,63 @@ func (w *World) runOp(rec *OpRec) {
 		_, err = w.Admin.ListTableNames(ln)
 		fillSlot(&rec.Slot, nil, err)
 		rec.Slot.HasMsg = err == nil
+	case "create", "delete", "enable", "disable", "balancer", "moveregion", "snapshot", "delsnapshot", "listsnapshots", "restore":
+		w.runAdmin(rec)
 	default:
 		panic("unknown op kind " + op.Kind)
 	}
+}
+
+// runAdmin runs one of the administrative calls that are more than a single
+// request: procedures polled until they finish, snapshots polled by a ticker.
+func (w *World) runAdmin(rec *OpRec) {
+	op := rec.Op
+	var err error
+	switch op.Kind {
+	case "create":
+		err = w.Admin.CreateTable(hrpc.NewCreateTable(rec.ctx, tableBytes(op.Table), map[string]map[string]string{"cf": nil}))
+	case "delete":
+		err = w.Admin.DeleteTable(hrpc.NewDeleteTable(rec.ctx, tableBytes(op.Table)))
+	case "enable":
+		err = w.Admin.EnableTable(hrpc.NewEnableTable(rec.ctx, tableBytes(op.Table)))
+	case "disable":
+		err = w.Admin.DisableTable(hrpc.NewDisableTable(rec.ctx, tableBytes(op.Table)))
+	case "balancer":
+		sb, e2 := hrpc.NewSetBalancer(rec.ctx, op.Exists)
+		if e2 != nil {
+			panic(e2)
+		}
+		_, err = w.Admin.SetBalancer(sb)
+	case "moveregion":
+		mr, e2 := hrpc.NewMoveRegion(rec.ctx, op.Key)
+		if e2 != nil {
+			panic(e2)
+		}
+		err = w.Admin.MoveRegion(mr)
+	case "snapshot", "delsnapshot", "restore":
+		sn, e2 := hrpc.NewSnapshot(rec.ctx, string(op.Key), op.Table)
+		if e2 != nil {
+			panic(e2)
+		}
+		switch op.Kind {
+		case "snapshot":
+			err = w.Admin.CreateSnapshot(sn)
+		case "delsnapshot":
+			err = w.Admin.DeleteSnapshot(sn)
+		case "restore":
+			err = w.Admin.RestoreSnapshot(sn)
+		}
+	case "listsnapshots":
+		var l []*pb.SnapshotDescription
+		l, err = w.Admin.ListSnapshots(hrpc.NewListSnapshots(rec.ctx))
+		for _, d := range l {
+			rec.Slot.Cells = append(rec.Slot.Cells, RCell{Value: []byte(d.GetName())})
+		}
+	}
+	cells := rec.Slot.Cells
+	fillSlot(&rec.Slot, nil, err)
+	rec.Slot.Cells = cells
+	rec.Slot.HasMsg = err == nil
 }
 
 func (w *World) closeClient() {
